@@ -27,6 +27,8 @@ for d in sorted(glob.glob("/verif/seeded/C*-*"), key=key):
     needs = (m.get("needs") or "").replace("|", "/").replace("\n", " ")
     rows.append(f"| `{sid}` | {summ[:260]} | {needs[:200]} | {'; '.join(caught)}{(' — ' + note) if note else ''} |")
     s = summary.setdefault(m["property"], {"n": 0, "own": [], "sibling": [], "none": []})
+    if not r.get("checks"):
+        continue  # imported but not run yet
     s["n"] += 1
     (s["own"] if own else s["sibling"] if sibling else s["none"]).append(sid)
 table = ("# Independently seeded changes\n\nOne row per change (`patch.diff`, `demo.py`, `meta.json`, `result.json` in the directory of the same name). "
